@@ -23,7 +23,7 @@ from harness import translate_py_cmp as tr
 MANIFEST = dict(
     category="proof",
     technique="Lean 4 theorems over a hand-written model of the compare engine + differential correspondence with the implementation",
-    text='Lean theorems for every option record, flag record and both entry points: C10_xpath_match_spec / _zero / _pos / C10_str_vs_tuple (a pattern matches iff the parts after its last empty part equal the last parts of the path case-insensitively with * for one part; the result is the 1-based index of the first matching pattern; a str argument equals the one-element tuple); C10_exclude (the run with exclude_xpaths reports exactly the entries of the unrestricted run for which no tested prefix - one ending at a dictionary key, or the path of a list - matches, one line per remaining entry: both inclusions); C10_compare_only (entries located at dictionary entries are kept iff their path matches, entries located at list items are untouched). Transform (LeafTransform: every function is the identity on containers, maps scalars to scalars and None to a scalar or None): C10_transform_partial / C10_transform_verdict - for direct_compare, every other option and flag record, the run with transform on (a, b) and the run without it on the mapped trees (mapT) raise the same exception or return results of the same shape (line count, paths and pair kinds of the four lists), both directions; C10_transform_keyed / C10_transform_keyed_verdict (Proofs/CompareTransformKeyed.lean) - the same for the keyed/default entry point compare() WITHOUT a composite key on trees every list of which, at every depth, holds records only or leaves only: the n-th record meets the n-th record, and (fix C10-a) a leaf is keyed by the JSON text of its TRANSFORMED value, the key it has in the mapped tree, so both runs pair the same positions ([i]<>[j] included) and two leaves meet iff their transformed values have the same type and value (C10_transform_keyed_example: {"a":["A"]} vs {"a":["a"]} under ("//a", lower) reports nothing); KEPT AND REFUTED: C10_transform_stmt (both entry points, all trees) - C10_transform_refuted from C10_transform_keyed_nested_cex (known finding C10-b, what is left of C10-a: a list that is an item of a list is keyed by the JSON text of its UNtransformed leaves; needs a pattern naming the index of the inner list such as //a[0]); WITH a composite key (fixes C08-b, C10-c): C10_transform_keyed_ck_keys - for EVERY composite key, LeafTransform, every pattern (patterns naming an index included) and every list whose items are leaves or records with leaf key fields, the keys the run with transform builds (JSON text of the TRANSFORMED key fields, each looked up with prefix[i]/field, the path the leaf comparison uses) are item by item the keys of the mapped list in the run without transform, so both runs pair the same positions and a pattern that names no dictionary entry changes no key; C10_ck_pairing_fixed - the inputs of finding C10-c (pattern rows/id with the constant function: nothing reported, as without the option; pattern rows[0]/id with lower on id "A" vs "a": the records meet); C10_transform_keyed_ck_fixed - the former counter-example (identity on an int key field raised TypeError) now returns; STATED, NOT PROVED: C10_transform_keyed_ck_stmt (the full TrERel statement with a composite key under IdxBlind - no pattern tells [i], [j] and [i]<>[j] apart; missing: the walk induction for pairs met across positions), executed on the implementation by evaluator transform/ck. The model (lean/N0Verif/Model/Compare.lean) follows n0dict.compare/direct_compare, n0list.compare/direct_compare, xpath_match, generate_composite_keys, update_extend and the flag machine branch by branch for the code WITH fix patches C07-a, C08-a, C09-a, C07-b, C07-c, C09-b, C10-a, C07-d, C08-b, C10-c applied; it is compared with the implementation on generated pairs of trees (verdict, entry sets with rendered paths and values, number of prose lines, exception class) and the statement itself is executed on the implementation with Python-side oracles. SOURCE TIE of the pure pattern matcher every option goes through: on every run harness/translate_py_cmp.py re-translates the Python text of xpath_match (str-or-sequence argument, split, two nested for loops with enumerate/reversed, return/break/for-else, lower(), *, the empty part) into lean/N0Verif/Gen/XPathMatch.lean (two specialisations: xpath_list a str / a tuple-or-list of str, joined by Compare.PatArg), and Lean re-checks C10_generated_xpath_match_eq (translated definition = hand-written Compare.xpathMatch for every path text and every PatArg; in particular the translated code never raises), C10_generated_xpath_match_seq_eq / _str_eq (= xpathMatchFrom), C10_generated_step_matchOne, and the C10 matcher facts restated over the translated code (C10_xpath_match_zero_generated, C10_xpath_match_pos_generated, C10_str_vs_tuple_generated). A change of xpath_match changes the generated text, so it either still satisfies the equalities or a proof obligation fails; code outside the translated subset is reported as a broken tie. The translated definition has its own correspondence stream (xmgen.match) against the running function. generate_composite_keys is NOT translated (dict values, callables, f-strings: outside the subset); it stays tied by the cmp.keys streams only.',
+    text='Lean theorems for every option record, flag record and both entry points: C10_xpath_match_spec / _zero / _pos / C10_str_vs_tuple (a pattern matches iff the parts after its last empty part equal the last parts of the path case-insensitively with * for one part; the result is the 1-based index of the first matching pattern; a str argument equals the one-element tuple); C10_exclude (the run with exclude_xpaths reports exactly the entries of the unrestricted run for which no tested prefix - one ending at a dictionary key, or the path of a list - matches, one line per remaining entry: both inclusions); C10_compare_only (entries located at dictionary entries are kept iff their path matches, entries located at list items are untouched). Transform (LeafTransform: every function is the identity on containers, maps scalars to scalars and None to a scalar or None): C10_transform_partial / C10_transform_verdict - for direct_compare, every other option and flag record, the run with transform on (a, b) and the run without it on the mapped trees (mapT) raise the same exception or return results of the same shape (line count, paths and pair kinds of the four lists), both directions; C10_transform_keyed / C10_transform_keyed_verdict (Proofs/CompareTransformKeyed.lean) - the same for the keyed/default entry point compare() WITHOUT a composite key on trees every list of which, at every depth, holds records only or leaves only: the n-th record meets the n-th record, and (fix C10-a) a leaf is keyed by the JSON text of its TRANSFORMED value, the key it has in the mapped tree, so both runs pair the same positions ([i]<>[j] included) and two leaves meet iff their transformed values have the same type and value (C10_transform_keyed_example: {"a":["A"]} vs {"a":["a"]} under ("//a", lower) reports nothing); KEPT AND REFUTED: C10_transform_stmt (both entry points, all trees) - C10_transform_refuted from C10_transform_keyed_nested_cex (known finding C10-b, what is left of C10-a: a list that is an item of a list is keyed by the JSON text of its UNtransformed leaves; needs a pattern naming the index of the inner list such as //a[0]); WITH a composite key (fixes C08-b, C10-c): C10_transform_keyed_ck_keys - for EVERY composite key, LeafTransform, every pattern (patterns naming an index included) and every list whose items are leaves or records with leaf key fields, the keys the run with transform builds (JSON text of the TRANSFORMED key fields, each looked up with prefix[i]/field, the path the leaf comparison uses) are item by item the keys of the mapped list in the run without transform, so both runs pair the same positions and a pattern that names no dictionary entry changes no key; C10_ck_pairing_fixed - the inputs of finding C10-c (pattern rows/id with the constant function: nothing reported, as without the option; pattern rows[0]/id with lower on id "A" vs "a": the records meet); C10_transform_keyed_ck_fixed - the former counter-example (identity on an int key field raised TypeError) now returns; C10_transform_keyed_ck / C10_transform_keyed_ck_verdict (Proofs/CompareTransformCk.lean; proves C10_transform_keyed_ck_stmt, which is kept) - the full TrERel statement for compare() with EVERY composite key under LeafTransform and IdxBlind (no pattern tells [i], [j] and [i]<>[j] apart), every other option and flag record, on trees every list of which holds records only or leaves only with leaf key fields: the run with transform on (a, b) and the run without it on the mapped trees raise the same exception or return results of the same shape, records paired ACROSS positions ([i]<>[j]) included, at every depth (the mapping of a subtree depends on its prefix only through the transform lookups of the extensions of the prefix, which IdxBlind identifies for prefix[i], prefix[j] and prefix[i]<>[j]; walk induction with general keys); C10_idxBlind_of_noBracket - IdxBlind holds for every option record no transform pattern of which contains a closing square bracket (whatever the keys of the trees are); the statement is also executed on the implementation by evaluator transform/ck. The model (lean/N0Verif/Model/Compare.lean) follows n0dict.compare/direct_compare, n0list.compare/direct_compare, xpath_match, generate_composite_keys, update_extend and the flag machine branch by branch for the code WITH fix patches C07-a, C08-a, C09-a, C07-b, C07-c, C09-b, C10-a, C07-d, C08-b, C10-c applied; it is compared with the implementation on generated pairs of trees (verdict, entry sets with rendered paths and values, number of prose lines, exception class) and the statement itself is executed on the implementation with Python-side oracles. SOURCE TIE of the pure pattern matcher every option goes through: on every run harness/translate_py_cmp.py re-translates the Python text of xpath_match (str-or-sequence argument, split, two nested for loops with enumerate/reversed, return/break/for-else, lower(), *, the empty part) into lean/N0Verif/Gen/XPathMatch.lean (two specialisations: xpath_list a str / a tuple-or-list of str, joined by Compare.PatArg), and Lean re-checks C10_generated_xpath_match_eq (translated definition = hand-written Compare.xpathMatch for every path text and every PatArg; in particular the translated code never raises), C10_generated_xpath_match_seq_eq / _str_eq (= xpathMatchFrom), C10_generated_step_matchOne, and the C10 matcher facts restated over the translated code (C10_xpath_match_zero_generated, C10_xpath_match_pos_generated, C10_str_vs_tuple_generated). A change of xpath_match changes the generated text, so it either still satisfies the equalities or a proof obligation fails; code outside the translated subset is reported as a broken tie. The translated definition has its own correspondence stream (xmgen.match) against the running function. generate_composite_keys is NOT translated (dict values, callables, f-strings: outside the subset); it stays tied by the cmp.keys streams only.',
     note='str.lower() is modelled for ASCII (patterns/keys) and Latin-1 (transform lower); transform functions come from the family identity/lower/constant/numeric truncation (float lexemes of the form [-]d+.d+). Trusted for the translator tie: the reading of the Python subset by the translator (notes/C10-gen.md, C01-gen.md, C13-gen.md) and the library definitions it uses (str.split = Py.split, str.lower = Py.lower i.e. ASCII lower-casing - non-ASCII cased letters are outside the model and the streams generate none -, reversed(list) in a loop header = List.reverse, x[i] = idxE, enumerate = List.zipIdx); the run-time class of the argument is the PatArg constructor (the TypeError branch for other classes is not translated).',
     design_ref='5/C10',
 )
